@@ -323,6 +323,7 @@ pub fn gen_grammar_idiom(rng: &mut Rng, cfg: &GenCfg, k: usize) -> Vec<Rule> {
     let mut rules = gen_grammar(rng, cfg);
     let names: Vec<String> = rules.iter().map(|r| r.name.clone()).collect();
     let later: Vec<String> = names.iter().skip(1).filter(|n| *n != "WHITESPACE" && *n != "COMMENT" && *n != "wsi" && *n != "txt").cloned().collect();
+    let variant = k / 12;   // the i-th grammar built around the same idiom: used to walk through the idiom's main shapes
     let k = k % 12;
     let k = if k == 11 && !cfg.builtin_names { 4 } else { k };
     let k = if (k == 8 || k == 9) && !(cfg.extras && cfg.tag_shapes && cfg!(feature = "extras")) { k - 4 } else { k };
@@ -370,16 +371,16 @@ pub fn gen_grammar_idiom(rng: &mut Rng, cfg: &GenCfg, k: usize) -> Vec<Rule> {
             let tagged = if k == 8 { Expr::NodeTag(bx(Expr::Opt(bx(b))), "t".into()) } else { Expr::NodeTag(bx(Expr::Rep(bx(b))), "t".into()) };
             if rng.chance(1, 2) { Expr::Seq(bx(a), bx(tagged)) } else { tagged } }
         // pushes, then a repeated stack reader (its last, failing iteration has already popped), then readers of what must be left
-        10 => { let npush = rng.range(2, 3); let rep = match rng.below(4) { 0 | 1 => Expr::RepOnce(bx(Expr::Ident("POP".into()))), 2 => Expr::Rep(bx(Expr::Ident("POP".into()))), _ => Expr::RepOnce(bx(Expr::Seq(bx(Expr::Ident("POP".into())), bx(Expr::Opt(bx(s(rng))))))) };
+        10 => { let npush = rng.range(2, 3); let rep = match variant % 4 { 0 | 1 => Expr::RepOnce(bx(Expr::Ident("POP".into()))), 2 => Expr::Rep(bx(Expr::Ident("POP".into()))), _ => Expr::RepOnce(bx(Expr::Seq(bx(Expr::Ident("POP".into())), bx(Expr::Opt(bx(s(rng))))))) };
             let tail = match rng.below(3) { 0 => Expr::Seq(bx(s(rng)), bx(Expr::Ident("POP".into()))), 1 => Expr::Ident("PEEK_ALL".into()), _ => Expr::Seq(bx(Expr::Ident("POP".into())), bx(Expr::Opt(bx(Expr::Ident("POP".into()))))) };
             let mut e = Expr::Seq(bx(rep), bx(tail));
             for _ in 0..npush { e = Expr::Seq(bx(Expr::Push(bx(s(rng)))), bx(e)); }
-            rules[0].ty = *rng.pick(&[RuleType::Atomic, RuleType::Atomic, RuleType::CompoundAtomic, RuleType::Normal]);
+            rules[0].ty = [RuleType::Atomic, RuleType::CompoundAtomic, RuleType::Atomic, RuleType::Normal][variant % 4];
             e }
         // a user rule named like a basic ASCII built-in next to a composite built-in that "contains" it: the grammar's rule
         // is used where its name is written, never inside the composite built-in
-        11 => { let (user, comps): (&str, &[&str]) = *rng.pick(&[("ASCII_DIGIT", &["ASCII_ALPHANUMERIC", "ASCII_HEX_DIGIT"][..]), ("ASCII_ALPHA_LOWER", &["ASCII_ALPHA", "ASCII_ALPHANUMERIC"][..]),
-                ("ASCII_ALPHA_UPPER", &["ASCII_ALPHA", "ASCII_ALPHANUMERIC"][..]), ("ASCII_ALPHA", &["ASCII_ALPHANUMERIC"][..]), ("ASCII_NONZERO_DIGIT", &["ASCII_DIGIT", "ASCII_HEX_DIGIT"][..])]);
+        11 => { let (user, comps): (&str, &[&str]) = [("ASCII_DIGIT", &["ASCII_ALPHANUMERIC", "ASCII_HEX_DIGIT"][..]), ("ASCII_ALPHA_LOWER", &["ASCII_ALPHA", "ASCII_ALPHANUMERIC"][..]),
+                ("ASCII_ALPHA_UPPER", &["ASCII_ALPHA", "ASCII_ALPHANUMERIC"][..]), ("ASCII_ALPHA", &["ASCII_ALPHANUMERIC"][..]), ("ASCII_NONZERO_DIGIT", &["ASCII_DIGIT", "ASCII_HEX_DIGIT"][..])][variant % 5];
             if !names.iter().any(|n| n == user) {
                 let body = match rng.below(3) { 0 => Expr::Seq(bx(s(rng)), bx(s(rng))), 1 => Expr::Str("c".into()), _ => Expr::Seq(bx(Expr::Str("x".into())), bx(Expr::Opt(bx(s(rng))))) };
                 rules.push(Rule { name: user.into(), ty: *rng.pick(&[RuleType::Normal, RuleType::Normal, RuleType::Silent, RuleType::Atomic]), expr: body }); }
